@@ -304,6 +304,34 @@ def mutate (s : St) (k : Nat) (f : Graph → Graph × Option Err) : St × J :=
     | (g', none) => (s.set k g', ok)
     | (g', some e) => (s.set k g', jerr e)
 
+/-- the tables of `confh` / `sconfh`: | nl l.. | na a.. | nhl l.. | nh (l v rank).. | ns (n l v).. | ndp (n l).. | nd (n l t v).. -/
+def parseHier (rest : List String) : List Nat × List Nat × LabelTableH × Hierarchies :=
+  let grab (r : List String) (w : Nat) : List (List String) × List String :=
+    let n := tokN (r.headD "0")
+    let body := (r.drop 1).take (n * w)
+    ((List.range n).map (fun i => (body.drop (i * w)).take w), (r.drop 1).drop (n * w))
+  let (ls, rest) := grab rest 1
+  let labels := ls.map (fun x => tokN (x.headD "0"))
+  let (as, rest) := grab rest 1
+  let alphas := as.map (fun x => tokN (x.headD "0") / 100)
+  let (hl, rest) := grab rest 1
+  let hlabels := hl.map (fun x => tokN (x.headD "0"))
+  let (hs, rest) := grab rest 3
+  let htr : List (Nat × Nat × Int) := hs.map (fun x => (tokN (x.getD 0 "0"), tokN (x.getD 1 "0"), ((x.getD 2 "0").toInt?.getD 0)))
+  let (ss, rest) := grab rest 3
+  let stat : List (Node × Nat × Nat) := ss.map (fun x => (tokN (x.getD 0 "0"), tokN (x.getD 1 "0"), tokN (x.getD 2 "0")))
+  let (dp, rest) := grab rest 2
+  let dynp : List (Node × Nat) := dp.map (fun x => (tokN (x.getD 0 "0"), tokN (x.getD 1 "0")))
+  let (ds, _) := grab rest 4
+  let dyn : List (Node × Nat × Int × Nat) := ds.map (fun x => (tokN (x.getD 0 "0"), tokN (x.getD 1 "0"), ((x.getD 2 "0").toInt?.getD 0), tokN (x.getD 3 "0")))
+  let tab : LabelTableH := fun l n =>
+    if dynp.any (fun e => e.1 == n && e.2 == l) then
+      .dyn ((dyn.filter (fun e => e.1 == n && e.2.1 == l)).map (fun e => (e.2.2.1, e.2.2.2)))
+    else .static (((stat.find? (fun e => e.1 == n && e.2.1 == l)).map (·.2.2)).getD 0)
+  let hier : Hierarchies := fun l =>
+    if hlabels.contains l then some ((htr.filter (fun e => e.1 == l)).map (fun e => (e.2.1, e.2.2))) else none
+  (labels, alphas, tab, hier)
+
 def withG (s : St) (k : String) (f : Graph → J) : St × J :=
   match s.get (tokN k) with
   | none => (s, .str "E:KeyError")
@@ -540,36 +568,28 @@ def exec (s : St) (w : List String) : St × J :=
   | "confh" :: k :: start :: delta :: pt :: psize :: rest =>
     -- confh slot start delta ptype profile_size | nl l.. | na a.. | nhl l.. | nh (l v rank).. | ns (n l v).. | ndp (n l).. | nd (n l t v)..
     withG s k (fun g =>
-      let grab (r : List String) (w : Nat) : List (List String) × List String :=
-        let n := tokN (r.headD "0")
-        let body := (r.drop 1).take (n * w)
-        ((List.range n).map (fun i => (body.drop (i * w)).take w), (r.drop 1).drop (n * w))
-      let (ls, rest) := grab rest 1
-      let labels := ls.map (fun x => tokN (x.headD "0"))
-      let (as, rest) := grab rest 1
-      let alphas := as.map (fun x => tokN (x.headD "0") / 100)
-      let (hl, rest) := grab rest 1
-      let hlabels := hl.map (fun x => tokN (x.headD "0"))
-      let (hs, rest) := grab rest 3
-      let htr : List (Nat × Nat × Int) := hs.map (fun x => (tokN (x.getD 0 "0"), tokN (x.getD 1 "0"), ((x.getD 2 "0").toInt?.getD 0)))
-      let (ss, rest) := grab rest 3
-      let stat : List (Node × Nat × Nat) := ss.map (fun x => (tokN (x.getD 0 "0"), tokN (x.getD 1 "0"), tokN (x.getD 2 "0")))
-      let (dp, rest) := grab rest 2
-      let dynp : List (Node × Nat) := dp.map (fun x => (tokN (x.getD 0 "0"), tokN (x.getD 1 "0")))
-      let (ds, _) := grab rest 4
-      let dyn : List (Node × Nat × Int × Nat) := ds.map (fun x => (tokN (x.getD 0 "0"), tokN (x.getD 1 "0"), ((x.getD 2 "0").toInt?.getD 0), tokN (x.getD 3 "0")))
-      let tab : LabelTableH := fun l n =>
-        if dynp.any (fun e => e.1 == n && e.2 == l) then
-          .dyn ((dyn.filter (fun e => e.1 == n && e.2.1 == l)).map (fun e => (e.2.2.1, e.2.2.2)))
-        else .static (((stat.find? (fun e => e.1 == n && e.2.1 == l)).map (·.2.2)).getD 0)
-      let hier : Hierarchies := fun l =>
-        if hlabels.contains l then some ((htr.filter (fun e => e.1 == l)).map (fun e => (e.2.1, e.2.2))) else none
+      let (labels, alphas, tab, hier) := parseHier rest
       match g.deltaConformityH tab hier (start.toInt?.getD 0) (delta.toInt?.getD 0) alphas labels (tokN psize) (tokN pt) with
       | .ok none => .null
       | .ok (some l) => .obj (l.map (fun (a, prs) => (alphaKey a, J.obj (prs.map (fun (pr, sc) =>
           ("_".intercalate (pr.map (fun l => "L" ++ toString l)),
            .arr ((sortByKey (fun (p : Node × Rat) => [(p.1 : Int)]) sc).map (fun p => .arr [jn p.1, jrat p.2]))))))))
       | .error e => jerr e)
+  | "sconfh" :: k :: delta :: pt :: psize :: rest =>
+    -- the sliding driver with the same tables: sconfh slot delta ptype profile_size | nl l.. | na a.. | ...
+    withG s k (fun g =>
+      let (labels, alphas, tab, hier) := parseHier rest
+      let profs := profilesOf labels (tokN psize)
+      let np := profs.length
+      match g.slidingDeltaConformityH tab hier (delta.toInt?.getD 0) alphas labels (tokN psize) (tokN pt) with
+      | .error e => jerr e
+      | .ok res =>
+        let ais := (res.map (fun e => e.1 / np)).eraseDups
+        .obj (ais.map (fun i => (alphaKey (alphas.getD i 0),
+          J.obj ((res.filter (fun e => e.1 / np == i)).map (fun e =>
+            ("_".intercalate ((profs.getD (e.1 % np) []).map (fun l => "L" ++ toString l)),
+             .arr ((sortByKey (fun (p : Node × List (Int × Rat)) => [(p.1 : Int)]) e.2).map (fun p =>
+               .arr [jn p.1, .arr (p.2.map (fun tv => .arr [ji tv.1, jrat tv.2]))]))))))))) 
   | "sconf" :: k :: delta :: pt :: n :: alphas =>
     withG s k (fun g =>
       match g.slidingDeltaConformity (delta.toInt?.getD 0) ((alphas.take (tokN n)).map (fun a => tokN a / 100)) (tokN pt) with
